@@ -148,8 +148,42 @@ func payload(n int, salt byte) []byte {
 
 // Op is one call on the http.ResponseWriter.
 type Op struct {
-	Op string `json:"op"`          // status | write | flush | hijack (N bytes sent on the raw connection after the 101)
-	N  int    `json:"n,omitempty"` // status: the code; write: number of body bytes
+	Op  string `json:"op"`            // status | write | flush | hijack (N bytes sent on the raw connection after the 101)
+	N   int    `json:"n,omitempty"`   // status: the code; write: number of body bytes
+	Via string `json:"via,omitempty"` // write: HOW the handler hands the N bytes to the ResponseWriter (see the Via constants; "" = w.Write)
+}
+
+// The ways a Go handler emits a piece of body. The property speaks of the bytes the client receives, not of
+// the call that produced them, so the bounds and "unchanged" hold for every one of them.
+const (
+	ViaWrite  = ""       // w.Write(piece)
+	ViaString = "string" // io.WriteString(w, piece): w.WriteString when the writer in front of the handler is an io.StringWriter, else w.Write
+	ViaCopy   = "copy"   // io.CopyBuffer(w, reader, 32 KiB buffer): w.ReadFrom when the writer is an io.ReaderFrom, else w.Write per buffer-full
+	ViaFprint = "fprint" // fmt.Fprint(w, piece): formatted output (templates, Fprintf), arrives as w.Write
+)
+
+// emitWays lists the ways in the order generators and enumerations use.
+var emitWays = []string{ViaWrite, ViaString, ViaCopy, ViaFprint}
+
+const copyBuf = 32 << 10 // io.Copy's own buffer size
+
+// onlyReader hides every optional interface of a reader (bytes.Reader is an io.WriterTo, which io.Copy
+// would prefer over the destination's ReadFrom).
+type onlyReader struct{ io.Reader }
+
+// emit hands one piece of body to the ResponseWriter the given way.
+func emit(w http.ResponseWriter, piece []byte, via string) (err error) {
+	switch via {
+	case ViaString:
+		_, err = io.WriteString(w, string(piece))
+	case ViaCopy:
+		_, err = io.CopyBuffer(w, onlyReader{bytes.NewReader(piece)}, make([]byte, copyBuf))
+	case ViaFprint:
+		_, err = fmt.Fprint(w, string(piece))
+	default:
+		_, err = w.Write(piece)
+	}
+	return err
 }
 
 // Program is what the stub handler does for one request.
@@ -191,7 +225,44 @@ func (p *Program) Explicit() int {
 	return 0
 }
 
-// FirstWrite returns the size of the first Write call (-1 if none) and whether a Flush precedes it.
+// FirstVia returns the way the first piece of body is emitted (ViaWrite if there is none).
+func (p *Program) FirstVia() string {
+	for _, o := range p.Ops {
+		if o.Op == "write" {
+			return o.Via
+		}
+	}
+	return ViaWrite
+}
+
+// Ways returns the set of ways the program emits body with, in emitWays order.
+func (p *Program) Ways() []string {
+	seen := map[string]bool{}
+	for _, o := range p.Ops {
+		if o.Op == "write" {
+			seen[o.Via] = true
+		}
+	}
+	var out []string
+	for _, w := range emitWays {
+		if seen[w] {
+			out = append(out, w)
+		}
+	}
+	return out
+}
+
+// UsesCopy reports whether some piece is emitted with io.Copy.
+func (p *Program) UsesCopy() bool {
+	for _, o := range p.Ops {
+		if o.Op == "write" && o.Via == ViaCopy {
+			return true
+		}
+	}
+	return false
+}
+
+// FirstWrite returns the size of the first piece of body (-1 if none) and whether a Flush precedes it.
 func (p *Program) FirstWrite() (n int, flushedBefore bool) {
 	for _, o := range p.Ops {
 		switch o.Op {
@@ -217,7 +288,16 @@ func (p *Program) String() string {
 		case "status":
 			parts = append(parts, fmt.Sprintf("WriteHeader(%d)", o.N))
 		case "write":
-			parts = append(parts, fmt.Sprintf("Write(%d bytes)", o.N))
+			switch o.Via {
+			case ViaString:
+				parts = append(parts, fmt.Sprintf("io.WriteString(w, %d bytes)", o.N))
+			case ViaCopy:
+				parts = append(parts, fmt.Sprintf("io.Copy(w, reader of %d bytes)", o.N))
+			case ViaFprint:
+				parts = append(parts, fmt.Sprintf("fmt.Fprint(w, %d bytes)", o.N))
+			default:
+				parts = append(parts, fmt.Sprintf("Write(%d bytes)", o.N))
+			}
 		case "flush":
 			parts = append(parts, "Flush()")
 		}
@@ -311,7 +391,7 @@ func (s *Stub) ServeHTTP(w http.ResponseWriter, r *http.Request) {
 			_ = c.Close()
 			return
 		case "write":
-			_, err := w.Write(data[off : off+o.N])
+			err := emit(w, data[off:off+o.N], o.Via)
 			off += o.N
 			if err != nil {
 				rec.WriteErrs++
